@@ -489,7 +489,7 @@ func H_C03_repr() {
 // H_C03_repr_float: fraction/exponent literals (including ones beyond the double range,
 // where all representations saturate alike) through builtins that take floats.
 func H_C03_repr_float() {
-	lits := []string{"1.5", "1e2", "0.1e1", "-2.5E-3", "1e1000", "-1e1000", "1E400", "123456789012345678901234567890.5", "0.0", "-0.0", "1e-400", "9007199254740993", "1.7976931348623157e308", "1.8e308"}
+	lits := []string{"2.5", "1.5", "1e2", "0.1e1", "-2.5E-3", "1e1000", "-1e1000", "1E400", "123456789012345678901234567890.5", "0.0", "-0.0", "1e-400", "9007199254740993", "1.7976931348623157e308", "1.8e308"}
 	lit := lits[nondetChoice(len(lits))]
 	vlabel("lit", lit)
 	jn := json.Number(lit)
@@ -533,5 +533,11 @@ func H_C03_repr_float() {
 	vassert(Compare(jn, pn) == 0, "a json.Number equals its parsed value")
 	vassert(same(funcFlatten([]any{[]any{1}}, []any{jn}), funcFlatten([]any{[]any{1}}, []any{pn})), "flatten(depth) accepts every representation")
 	vassert(same(funcOpMul(nil, "ab", jn), funcOpMul(nil, "ab", pn)), "string repeat accepts every representation")
+	arr := []any{1, 2, 3, 4}
+	vassert(same(funcSlice(nil, arr, jn, nil), funcSlice(nil, arr, pn, nil)), "a slice end does not depend on the representation")
+	vassert(same(funcSlice(nil, arr, nil, jn), funcSlice(nil, arr, nil, pn)), "a slice start does not depend on the representation")
+	vassert(same(funcSlice(nil, "abcd", jn, nil), funcSlice(nil, "abcd", pn, nil)), "a string slice end does not depend on the representation")
+	vassert(same(funcIndex2(nil, arr, jn), funcIndex2(nil, arr, pn)), "an index does not depend on the representation")
+	vassert(same(funcSetpath(arr, []any{map[string]any{"start": 1, "end": jn}}, []any{9}), funcSetpath(arr, []any{map[string]any{"start": 1, "end": pn}}, []any{9})), "a slice path does not depend on the representation")
 	vreach("end")
 }
